@@ -259,9 +259,15 @@ func (st *Store) hit(ctx context.Context, call, selKey string, series int, local
 		if st.CancelFn != nil {
 			st.CancelFn()
 		}
-		st.MarkCancelled()
 		return actNone, nil
 	case "block":
+		// the callback blocks until its context is done; the harness cancels from outside
+		if st.CancelFn != nil {
+			go func() {
+				time.Sleep(2 * time.Millisecond)
+				st.CancelFn()
+			}()
+		}
 		return actBlock, nil
 	}
 	return actNone, nil
